@@ -246,6 +246,71 @@ let run_fail id rest =
      | _ -> id ^ " bad-case")
   | _ -> id ^ " bad-case"
 
+(* ---- SRC: delivery units ---- *)
+let verbatim_cfg : Encoder.config =
+  { Encoder.cfg_block_size = n_of_int 4096; cfg_multithread = false; cfg_workers = None;
+    cfg_use_leftside = false; cfg_use_rightside = false; cfg_use_midside = false;
+    cfg_use_constant = false; cfg_use_fixed = false; cfg_use_lpc = false;
+    cfg_fixed_max_order = n_of_int 4; cfg_order_sel = Some (n_of_int 16);
+    cfg_lpc_order = n_of_int 10; cfg_quant_precision = n_of_int 15; cfg_use_direct_mse = false; cfg_mae_steps = N0;
+    cfg_window = None; cfg_max_parameter = n_of_int 14 }
+
+let rec interleave_lists (chs : coq_Z list list) : coq_Z list =
+  if chs = [] || Stdlib.List.exists (fun c -> c = []) chs then []
+  else Stdlib.List.map Stdlib.List.hd chs @ interleave_lists (Stdlib.List.map Stdlib.List.tl chs)
+
+let run_src id rest =
+  match split_on ' ' rest with
+  | ["D"; ch; stride; src; old] ->
+    let r = Source.deinterleave (nat_of_int (int_of_string ch)) (nat_of_int (int_of_string stride)) (parse_samples src) (parse_samples old) in
+    Printf.sprintf "%s ok %s" id (fmt_z_list r)
+  | ["L"; nb; h] ->
+    (match Source.le_bytes_to_i32s (if h = "-" then [] else hexbytes h) (n_of_int (int_of_string nb)) with
+     | Ok l -> Printf.sprintf "%s ok %s" id (fmt_z_list l) | _ -> id ^ " panic")
+  | ["I"; nb; ints] ->
+    (match Source.i32s_to_le_bytes (parse_samples ints) (n_of_int (int_of_string nb)) with
+     | Ok l -> Printf.sprintf "%s ok %s" id (hex_of_bytes l) | _ -> id ^ " panic")
+  | ["F"; ch; cap; bps; mode; nb; first; second] ->
+    let chn = int_of_string ch and capn = int_of_string cap and bpsn = int_of_string bps in
+    let nb = n_of_int (int_of_string nb) in
+    let declared = n_of_int ((bpsn + 7) / 8) in
+    let first = parse_samples first and second = parse_samples second in
+    let bytes_of nbv l = Stdlib.List.concat_map (fun x -> Source.le_bytes_of nbv x) l in
+    let fb0 = Source.fb_new (nat_of_int chn) (nat_of_int capn) in
+    let cx0 = Source.ctx_new (n_of_int bpsn) (n_of_int chn) in
+    let fill fb cx l nbv =
+      if mode = "b" then
+        (match Source.fill_le_bytes fb (bytes_of nbv l) nbv with
+         | Ok fb' -> (match Source.ctx_fill_le_bytes cx (bytes_of nbv l) nbv with Ok cx' -> Some (fb', cx') | _ -> None)
+         | _ -> None)
+      else (match Source.fill_interleaved fb l with Ok fb' -> Some (fb', Source.ctx_fill_interleaved cx l) | _ -> None) in
+    (match fill fb0 cx0 first declared with
+     | None -> id ^ " first-err"
+     | Some (fb1, cx1) ->
+       (match fill fb1 cx1 second nb with
+        | None ->
+          (* which part failed decides what filled_size shows: FrameBuf is filled first *)
+          let filled = (if mode = "b" then (match Source.fill_le_bytes fb1 (bytes_of nb second) nb with Ok f -> f | _ -> fb1)
+                        else (match Source.fill_interleaved fb1 second with Ok f -> f | _ -> fb1)) in
+          Printf.sprintf "%s err filled=%d" id (int_of_nat filled.Source.fb_filled)
+        | Some (fb2, cx2) ->
+          let (filled, slices) = Source.observable fb2 in
+          let block = interleave_lists slices in
+          if int_of_nat filled = 0 then
+            Printf.sprintf "%s ok filled=0 total=%d frames=%d md5=%s -" id (int_of_n cx2.Source.cx_samples) (int_of_n cx2.Source.cx_frames)
+              (hex_of_bytes (md5_oracle cx2.Source.cx_md5in)) else
+          let entf _ _ _ = N0 and qf _ _ = { Predict.q_coefs = []; q_shift = Z0; q_precision = n_of_int 1 } in
+          (match Encoder.encode_fixed_size_frame entf qf verbatim_cfg (n_of_int 44100) (n_of_int chn) (n_of_int bpsn) N0 N0 block with
+           | Ok f -> (match Component.frame_bytes f with
+               | Ok b ->
+                 let d = md5_oracle cx2.Source.cx_md5in in
+                 Printf.sprintf "%s ok filled=%d total=%d frames=%d md5=%s %s" id (int_of_nat filled)
+                   (int_of_n cx2.Source.cx_samples) (int_of_n cx2.Source.cx_frames) (hex_of_bytes d) (hex_of_bytes b)
+               | _ -> id ^ " frame-bytes-error")
+           | Err _ -> Printf.sprintf "%s frame-err filled=%d" id (int_of_nat filled)
+           | Panic _ -> id ^ " panic")))
+  | _ -> id ^ " bad-case"
+
 let run_line (line : string) : string =
   match split_on ' ' line with
   | stream :: id :: _ ->
@@ -260,6 +325,7 @@ let run_line (line : string) : string =
        | "DEC" -> run_dec id rest
        | "CNT" -> run_cnt id rest
        | "FAIL" -> run_fail id rest
+       | "SRC" -> run_src id rest
        | "RICE" -> run_rice id rest
        | _ -> id ^ " unknown-stream")
      with Stack_overflow -> id ^ " model-stack-overflow")
